@@ -16,6 +16,18 @@ pub enum When {
     /// block height == expiry height (AtHeight is expired when height >= h)
     AtExpiry,
     After,
+    /// the proposal never expires (legal for users of the library): it is judged like an open one for ever
+    Never,
+    /// time-based expiry one nanosecond ahead of / exactly at / one nanosecond behind the block time
+    TimeBefore,
+    TimeAt,
+    TimeAfter,
+}
+
+impl When {
+    fn expired(self) -> bool {
+        matches!(self, When::AtExpiry | When::After | When::TimeAt | When::TimeAfter)
+    }
 }
 
 #[derive(Clone, Debug, Serialize, Deserialize, PartialEq)]
@@ -153,7 +165,7 @@ pub fn tcase_strategy(_tier: Tier) -> BoxedStrategy<TCase> {
         .prop_flat_map(|total| {
             // Count thresholds need total >= 1 to be valid
             let thr = if total == 0 { thr_strategy(1, 3).prop_filter("count invalid for empty group", |t| !matches!(t, Thr::Count(_))).boxed() } else { thr_strategy(total, 3) };
-            (Just(total), thr, proptest::array::uniform5(0u8..=8), mode_strategy(), prop_oneof![3 => Just(When::Before), 1 => Just(When::AtExpiry), 2 => Just(When::After)], proptest::collection::vec(proptest::array::uniform4(0u16..=400), 0..4))
+            (Just(total), thr, proptest::array::uniform5(0u8..=8), mode_strategy(), prop_oneof![9 => Just(When::Before), 3 => Just(When::AtExpiry), 6 => Just(When::After), 2 => Just(When::Never), 1 => Just(When::TimeBefore), 1 => Just(When::TimeAt), 1 => Just(When::TimeAfter)], proptest::collection::vec(proptest::array::uniform4(0u16..=400), 0..4))
         })
         .prop_map(|(total, thr, r, mode, when, completions)| {
             // 1 in 32 count thresholds is pushed above the total (unreachable count)
@@ -168,7 +180,25 @@ pub fn tcase_strategy(_tier: Tier) -> BoxedStrategy<TCase> {
 
 const EXPIRY_HEIGHT: u64 = 1000;
 
+const BLOCK_NANOS: u64 = 1_600_000_000_123_456_789;
+
 pub fn build_proposal(thr: Thr, total: u64, t: &Tally, status: Status) -> Proposal {
+    build_proposal_at(thr, total, t, status, When::Before)
+}
+
+pub fn build_proposal_at(thr: Thr, total: u64, t: &Tally, status: Status, when: When) -> Proposal {
+    let mut p = build_proposal_h(thr, total, t, status);
+    p.expires = match when {
+        When::Never => Expiration::Never {},
+        When::TimeBefore => Expiration::AtTime(Timestamp::from_nanos(BLOCK_NANOS + 1)),
+        When::TimeAt => Expiration::AtTime(Timestamp::from_nanos(BLOCK_NANOS)),
+        When::TimeAfter => Expiration::AtTime(Timestamp::from_nanos(BLOCK_NANOS - 1)),
+        _ => Expiration::AtHeight(EXPIRY_HEIGHT),
+    };
+    p
+}
+
+fn build_proposal_h(thr: Thr, total: u64, t: &Tally, status: Status) -> Proposal {
     Proposal {
         title: "t".into(),
         description: "d".into(),
@@ -189,8 +219,9 @@ fn block(when: When) -> BlockInfo {
         When::Before => EXPIRY_HEIGHT - 1,
         When::AtExpiry => EXPIRY_HEIGHT,
         When::After => EXPIRY_HEIGHT + 7,
+        _ => EXPIRY_HEIGHT + 3,
     };
-    BlockInfo { height, time: Timestamp::from_seconds(1_600_000_000), chain_id: "verif".into() }
+    BlockInfo { height, time: Timestamp::from_nanos(BLOCK_NANOS), chain_id: "verif".into() }
 }
 
 fn v(sig: &str, msg: String) -> Violation {
@@ -203,9 +234,9 @@ pub fn run_tcase(c: &TCase, ctx: &mut CaseCtx) -> Result<(), Violation> {
         ctx.count("out_of_domain");
         return Ok(());
     }
-    let p = build_proposal(thr, total, &tally, Status::Open);
+    let p = build_proposal_at(thr, total, &tally, Status::Open, when);
     let b = block(when);
-    let expired = when != When::Before;
+    let expired = when.expired();
     let desc = format!("{:?} total={} tally={:?} {:?}", thr, total, tally, when);
     if let Thr::Count(w) = thr {
         if w == 0 {
@@ -445,10 +476,13 @@ pub fn decode_tcase(u: &mut arbitrary::Unstructured) -> TCase {
         10 => Mode::QuorumBoundary(d(u)),
         _ => Mode::NoBoundary(d(u)),
     };
-    let when = match arb_below(u, 3) {
-        0 => When::Before,
-        1 => When::AtExpiry,
-        _ => When::After,
+    let when = match arb_below(u, 12) {
+        0..=3 => When::Before,
+        4 | 5 => When::AtExpiry,
+        6..=8 => When::After,
+        9 => When::Never,
+        10 => [When::TimeBefore, When::TimeAt][arb_below(u, 2)],
+        _ => When::TimeAfter,
     };
     let n = arb_below(u, 4);
     let completions = (0..n).map(|_| [arb_below(u, 401) as u16, arb_below(u, 401) as u16, arb_below(u, 401) as u16, arb_below(u, 401) as u16]).collect();
